@@ -1249,6 +1249,15 @@ def cases(rng, tier):
         for events in SMALL_EVENTS:
             for err in (None, "Boom"):
                 yield mk_asgi(hs, events, err)
+    # bodies beyond a megabyte in uneven pieces (whatever the relay buffers, spills or re-reads, the bytes keep their order)
+    big_bodies = [[b"A" * 700000, b"B" * 700000, b"C" * 10], [b"A" * 10, b"B" * 1100000, b"C" * 10, b"D" * 300000, b"E"],
+                  [bytes([65 + i]) * 60000 for i in range(21)] + [b"z" * 5000], [b"A" * (1 << 20), b"B"], [b"A" * ((1 << 20) + 1), b"B" * 3]]
+    for chunks in big_bodies:
+        for hs in ([("I",)], [("I",), ("I",)], [("S", "X-Edit", "v1")]):
+            events = [("s", 200, [("content-type", "application/octet-stream")])] + \
+                [("b", c, i < len(chunks) - 1) for i, c in enumerate(chunks)]
+            yield mk_asgi(hs, events, None)
+            yield mk_wsgi(hs, 0, "200 OK", [("Content-Type", "application/octet-stream")], chunks, None)
     # decorators
     for hs in SMALL_STACKS:
         for headers in SMALL_HEADERS:
